@@ -22,7 +22,8 @@ META = dict(
          "sequence of 1-3 requests over HEAD / GET / POST / DELETE on ONE keep-alive Patron against a real Valet (socket doubles), x Patron "
          "constructed with default method or HEAD x each request answered fixed-length, streamed or by HTTPError x requests issued one by one or "
          "queued at once; every response must match the app's output (no body for HEAD) when delivered AND still after all later responses, and "
-         "leave nothing in the receive buffer.",
+         "leave nothing in the receive buffer.  Path reuse: 2-3 GET/POST requests on one Patron where only the first (or the constructor) names "
+         "a path containing space / non-ASCII / ',' / '%' and the later ones omit it; the server must see the same path every time.",
     note="Pure product of small sets; arrival schedules only as two-piece fragmentation of the Responder's own output (C29 covers the general case); multipart form bodies, header values outside "
          "latin-1, duplicate header names and HTTPError raised after the head was sent are not exercised.  GET requests "
          "carry no body by ioflo's documented design, so the expected body for GET is empty.",
@@ -583,10 +584,12 @@ def seq_app(environ, start):
     """Answers by the last letter of the path: f = Content-Length, s = streamed (chunked, with an
     empty yield), e = raises HTTPError 404."""
     from ioflo.aio.http import httping
+    from urllib.parse import quote
     m, path = environ["REQUEST_METHOD"], environ["PATH_INFO"]
     echo = environ["wsgi.input"].read().decode("latin-1")
-    extra = [("X-Method", m), ("X-Path", path), ("X-Body", echo)]
     kind = path[-1]
+    path = quote(path, safe="/")           # the path the server saw, in ASCII
+    extra = [("X-Method", m), ("X-Path", path), ("X-Body", echo)]
     if kind == "e":
         raise httping.HTTPError(404, title="T", detail="D", headers=dict(extra))
     body = m.encode("ascii") + b" " + path.encode("ascii") + b" " + RESOURCE
@@ -597,8 +600,9 @@ def seq_app(environ, start):
     return iter([body[:len(m) + 1], b"", body[len(m) + 1:]])
 
 
-def seq_expected(i, m, k):
-    path = "/r%d%s" % (i, k)
+def seq_expected(i, m, k, path=None):
+    from urllib.parse import quote
+    path = quote(path if path is not None else "/r%d%s" % (i, k), safe="/")
     hdrs = {"x-method": m, "x-path": path, "x-body": "payload-%d" % i if m == "POST" else "", "content-type": "text/plain"}
     if k == "e":
         status, body = (404, "Not Found"), b"404 Not Found\nT\nD\n"
@@ -610,7 +614,7 @@ def seq_expected(i, m, k):
     return path, status, hdrs, (b"" if m == "HEAD" else body)
 
 
-def sequence_case(case, ctor_method, queue, reqs, part, replay):
+def sequence_case(case, ctor_method, queue, reqs, part, replay, ctor_path=None):
     """Real Patron <-> real Valet over socket doubles, keep-alive, requests issued with Patron.request().
     Every response is checked when delivered, and every delivered response is checked AGAIN after
     the whole sequence (a caller may keep responses while it issues further requests)."""
@@ -626,19 +630,27 @@ def sequence_case(case, ctor_method, queue, reqs, part, replay):
     kw = dict(hostname="127.0.0.1", port=8090, store=ck)
     if ctor_method is not None:
         kw["method"] = ctor_method
+    if ctor_path is not None:
+        kw["path"] = ctor_path
     patron = clienting.Patron(**kw)
     patron.open()
 
     def bad(field, what):
         part.violation("patron-sequence|%s" % field, case, "one Patron, requests %s: %s" % (case, what), replay)
 
+    def spec(i):
+        r = reqs[i]
+        if len(r) == 2:
+            return r[0], r[1], "/r%d%s" % (i, r[1]), "/r%d%s" % (i, r[1])
+        return r                       # (method, kind, path argument or None = reuse, path the server must see)
+
     def issue(i):
-        m, k = reqs[i]
-        patron.request(method=m, path="/r%d%s" % (i, k), body=b"payload-%d" % i if m == "POST" else None)
+        m, k, parg, pexp = spec(i)
+        patron.request(method=m, path=parg, body=b"payload-%d" % i if m == "POST" else None)
 
     def compare(i, rsp, when):
-        m, k = reqs[i]
-        path, status, hdrs, want = seq_expected(i, m, k)
+        m, k, parg, pexp = spec(i)
+        path, status, hdrs, want = seq_expected(i, m, k, pexp)
         ok = True
         if (rsp["status"], rsp["reason"]) != status:
             bad("status" + when, "request %d (%s %s): status %r %r, app sent %r" % (i + 1, m, path, rsp["status"], rsp["reason"], status))
@@ -656,7 +668,8 @@ def sequence_case(case, ctor_method, queue, reqs, part, replay):
     if queue == "all-at-once":
         for i in range(len(reqs)):
             issue(i)
-    for i, (m, k) in enumerate(reqs):
+    for i in range(len(reqs)):
+        m, k = reqs[i][0], reqs[i][1]
         if queue == "one-by-one":
             issue(i)
         rsp = None
@@ -720,7 +733,39 @@ def work_sequences(arg):
     return part
 
 
+REUSE_PATHS = ["/p/f", "/a b/f", "/caf\xe9/f", "/x,y/f", "/a%20b/f", "/\u6f22/f", "/100%/f"]
+
+
+def work_path_reuse(arg):
+    """Follow-up requests that OMIT the path reuse the Patron's stored path: the server must see the
+    client's path for every request (one-by-one issue: Patron.request reads requester.path at call time)."""
+    import itertools
+    core.use_repo()
+    from mc import net
+    if not _FSM:
+        _FSM.append(net.FakeSocketModule().install())
+    part = core.Part()
+    for path in REUSE_PATHS:
+        for n in (2, 3):
+            for methods in itertools.product(("GET", "POST"), repeat=n):
+                for where in ("first-request", "constructor"):
+                    reqs = [(m, "f", (path if (i == 0 and where == "first-request") else None), path) for i, m in enumerate(methods)]
+                    case = "%s  path %r given to the %s, omitted afterwards" % (" ".join(methods), path, where)
+                    out = sequence_case(case, None, "one-by-one", reqs, part,
+                                        dict(direction="patron-path-reuse", path=path, path_given_to=where, methods=list(methods),
+                                             how="Patron(hostname, port[, path=p]).open(); Patron.request(method=m[, path=p]) then "
+                                                 "Patron.request(method=m) without path; the app reports PATH_INFO in X-Path"),
+                                        ctor_path=path if where == "constructor" else None)
+                    part.evaluations += 1
+                    part.nontrivial("reuse " + case)
+                    part.outcome("patron-path-reuse:%s:%s" % (where, out))
+    part.sample(dict(direction="patron-path-reuse", case=case))
+    return part
+
+
 def work(item):
+    if item[0] == "reuse":
+        return work_path_reuse(item[1])
     if item[0] == "seq":
         return work_sequences(item[1])
     if item[0] == "req":
@@ -737,6 +782,7 @@ def run():
     items += [("rsp", ("errors",))]
     items += [("req", (m, p)) for m in METHODS for p in PATHS]
     items += [("pair", i) for i in range(len(PAIRKINDS))]
+    items += [("reuse", 0)]
     items += [("seq", (c, q, f)) for c in (None, "HEAD") for q in ("one-by-one", "all-at-once") for f in SEQ_METHODS]
     ck.merge(core.pmap(work, items))
     ck.coverage_extra = dict(request_dimensions=dict(methods=len(METHODS), paths=len(PATHS), qarg_sets=len(qarg_sets()),
@@ -762,6 +808,9 @@ def run():
         "previous response or all queued first, on a Patron constructed with the default method or with method='HEAD'; the caller keeps every "
         "response and all of them are compared again after the last one (a delivered response must not change); each response must carry "
         "the app's status, X-Method / X-Path / X-Body (echo of the request body) / Content-Type (and Content-Length) headers and body (empty for HEAD) and leave the receive buffer empty",
+        "path reuse: a Patron.request() that omits the path reuses the path of the Patron's previous request (or of its constructor); the "
+        "server-side PATH_INFO (reported by the app, quoted, in X-Path and in the body) must equal the client's path for every request; paths "
+        "with a space, latin-1 and CJK characters, ',', '%20' and a bare '%'",
         "by HTTP rules a response to HEAD and any 1xx / 204 / 304 response has no body: the body the client must see for those is empty whatever "
         "the application yields, the application's headers (including a Content-Length on a HEAD response) must still arrive, and no byte of "
         "such a response may stay in the client's receive buffer",
